@@ -46,6 +46,17 @@ static const int CTX4[4] = { 2, 5, 6, 7 };
 static const int CTX8[8] = { 0, 1, 2, 3, 4, 5, 6, 7 };
 static const int CTX2[2] = { 0, 6 };
 static const short FMT5[5] = { FORMAT_HTML, FORMAT_LATEX, FORMAT_FODT, FORMAT_OPML, FORMAT_EPUB };
+
+/* deep nesting: the built-in depth limits keep the call stack bounded, so a document nested far beyond them must still convert (same shapes as C07's ladder, here under ASan and for every text writer) */
+#define DEEP_N 150000
+static const char *DEEP[7][4] = { { "", "[", "]", "" }, { "`", "[", "]", "`" }, { "$", "(", ")", "$" }, { "", "(", ")", "" }, { "", "{++", "++}", "" }, { "```\n", "[", "]", "\n```" }, { "\\\\(", "{", "}", "\\\\)" } };
+static char *deep_doc(int k) {
+	size_t lo = strlen(DEEP[k][1]), lc = strlen(DEEP[k][2]); char *d = malloc(strlen(DEEP[k][0]) + (lo + lc) * DEEP_N + strlen(DEEP[k][3]) + 8), *p = d;
+	p += sprintf(p, "%s", DEEP[k][0]); for (int i = 0; i < DEEP_N; i++) { memcpy(p, DEEP[k][1], lo); p += lo; } *p++ = 'x';
+	for (int i = 0; i < DEEP_N; i++) { memcpy(p, DEEP[k][2], lc); p += lc; } p += sprintf(p, "%s\n", DEEP[k][3]); return d;
+}
+static void run_deep(uint64_t i) { int fi = i % 5; int k = (int)(i / 5); char *d = deep_doc(k); convert_case(d, FMT5[fi], EXT_DEFAULT, 0); free(d); }
+static void desc_deep(uint64_t i, FILE *o) { int fi = i % 5; int k = (int)(i / 5); fprintf(o, "\"construct\":\"%s%s x %d ... %s%s\",", DEEP[k][0][0] == '`' || DEEP[k][0][0] == '$' ? "span " : "", DEEP[k][1], DEEP_N, DEEP[k][2], ""); json_cfg(o, FMT5[fi], EXT_DEFAULT, 0); }
 static const unsigned long EXT2[2] = { EXT_DEFAULT, EXT_COMPAT_SET };
 static const unsigned long EXT4[4] = { EXT_DEFAULT, EXT_COMPAT_SET, EXT_DEFAULT | EXT_CRITIC_ACCEPT, EXT_DEFAULT | EXT_RANDOM_FOOT | EXT_RANDOM_LABELS };
 
@@ -293,6 +304,7 @@ int main(int argc, char **argv) {
 		{ "q_critic_range", cmr2 * 2 * RG * RG, run_cm_range, desc_cm_range, "qt", "accept/reject_range, every (start,len) on marker sequences len<=2" },
 		{ "q_readers", k_seq_count(A_xml->n, 1, 2) * NXSKEL * 4, run_xml, desc_xml, "qt", "OPML/ITMZ readers: xml fragment sequences len<=2 in 6 skeletons x 4 entry points" },
 		{ "q_zipmut", seed_zip->currentStringLength * 3 + 1, run_zipmut, desc_zipmut, "qt", "ITMZ archive reader: every prefix and every single-byte 00/FF substitution of a valid archive" },
+		{ "q_deep", 7 * 5, run_deep, desc_deep, "qt", "7 constructs nested 150000 deep (brackets, brackets inside a code span / fence / math, parentheses, CriticMarkup additions) x {html, latex, fodt, opml, epub}: converts without exhausting the stack" },
 		{ "q_tofile", (uint64_t)A_macro->n * NFORMATS * 3, run_tofile, desc_tofile, "qt", "convert_to_file: macro docs x 13 formats x 3 API families" },
 		{ "q_engine_reuse", (uint64_t)(A_macro->n + 36) * NFORMATS * NFORMATS, run_reuse, desc_reuse, "qt", "one engine reused: convert(f1), convert(f2), has_metadata, convert(html) for macro and line documents x 13 x 13 formats" },
 		{ "t_inline2", space_count(&SP[3]), run3, desc3, "t", "inline len<=2 x 8 contexts x 13 formats x 4 extension sets" },
